@@ -9,6 +9,8 @@ pub enum TxEnd {
     Rollback,
     Drop,
     RollbackThenCommit, // rollback, then the *same* ops again, then commit (partial rollback path)
+    /// every stream is dropped while the transaction is open, then it is committed (handled by the scenario runner)
+    DropStreamsThenCommit,
 }
 
 #[derive(Clone, Debug, PartialEq, Eq, Hash)]
@@ -78,6 +80,7 @@ impl Op {
                 "Rollback" => TxEnd::Rollback,
                 "Drop" => TxEnd::Drop,
                 "RollbackThenCommit" => TxEnd::RollbackThenCommit,
+                "DropStreamsThenCommit" => TxEnd::DropStreamsThenCommit,
                 _ => return None,
             };
             let mut ops = Vec::new();
@@ -196,7 +199,7 @@ impl Model {
                     }
                 }
                 match end {
-                    TxEnd::Commit => {}
+                    TxEnd::Commit | TxEnd::DropStreamsThenCommit => {}
                     TxEnd::Rollback | TxEnd::Drop => {
                         let next = self.next;
                         *self = saved;
@@ -226,7 +229,7 @@ impl Fresh {
     pub fn get(&mut self) -> It {
         let x = self.0;
         self.0 += 1;
-        It(x)
+        It::new(x)
     }
 }
 
@@ -258,6 +261,16 @@ fn apply_tx_prim(tx: &mut ObservableVectorTransaction<'_, It>, op: &Op, fresh: &
         Op::Truncate(n) => tx.truncate(*n),
         _ => panic!("nested tx / param op inside a transaction"),
     }
+}
+
+/// Transaction during which `mid` runs (the scenario runner drops the streams there) before the commit.
+pub fn apply_tx_with_midpoint(ob: &mut ObservableVector<It>, ops: &[Op], fresh: &mut Fresh, mid: impl FnOnce()) {
+    let mut tx = ob.transaction();
+    for o in ops {
+        apply_tx_prim(&mut tx, o, fresh);
+    }
+    mid();
+    tx.commit();
 }
 
 /// Applies a source op to the real ObservableVector (param ops are handled by the scenario runner).
@@ -293,7 +306,7 @@ pub fn apply_real(ob: &mut ObservableVector<It>, op: &Op, fresh: &mut Fresh) {
                 apply_tx_prim(&mut tx, o, fresh);
             }
             match end {
-                TxEnd::Commit => tx.commit(),
+                TxEnd::Commit | TxEnd::DropStreamsThenCommit => tx.commit(),
                 TxEnd::Rollback => {
                     tx.rollback();
                     drop(tx);
